@@ -136,6 +136,10 @@ Proof.
   apply atomic_roundtrip.
 Qed.
 
+Theorem translated_flag_then_global_is_spec : forall f user,
+  (u <- g_color_write_global f user ;; g_global u) = Some (flag_choice_spec f).
+Proof. intros f user. rewrite <- flag_is_spec. exact (translated_flag_then_global f user). Qed.
+
 (* before any write_global the global is what AtomicChoice::new() stored *)
 Theorem translated_initial_global : (u <- g_user_initial ;; g_global u) = Some ch_global_initial.
 Proof.
